@@ -55,6 +55,9 @@ func (g *G) Expr(t string, d int) string {
 			return g.pick(fmt.Sprintf("Inc(%s)", g.Expr("int", d-1)), fmt.Sprintf("Add(%s, %s)", g.Expr("int", d-1), g.Expr("int", d-1)),
 				fmt.Sprintf("Sum(%s, %s)", g.Expr("int", d-1), g.Expr("int", d-1)))
 		case 11:
+			if !g.NoCalls && g.r.Intn(3) == 0 {
+				return fmt.Sprintf("%s(%s)", g.pick("Sub.Twice", "P.Twice", "P?.Twice", "Sub?.Twice"), g.Expr("int", d-1))
+			}
 			return g.pick("Sub.X", "P.X", "P?.X")
 		case 12:
 			if g.depth > 0 && g.elem[len(g.elem)-1] == "int" {
